@@ -38,9 +38,10 @@ func valueTerms(c *Ctx, term string, t types.Type, depth int) []string {
 		out := []string{fmt.Sprintf("(slen %s)", term), fmt.Sprintf("(scap %s)", term), fmt.Sprintf("(= (sbase %s) lnil)", term)}
 		switch eu := u.Elem().Underlying().(type) {
 		case *types.Basic:
-			if mem, ok := entryMem(c, u.Elem()); ok && (isInt(eu) || isBool(eu)) {
+			mem := fmt.Sprintf("M_%s_0", c.arrKey(u.Elem()))
+			if c.declared[mem] && (isInt(eu) || isBool(eu)) {
 				for i := 0; i < modelElems; i++ {
-					out = append(out, fmt.Sprintf("(select %s (lelem (sbase %s) %s))", mem, term, c.binopIdx("+", fmt.Sprintf("(soff %s)", term), c.idxLit(int64(i)))))
+					out = append(out, fmt.Sprintf("(select (select %s (sbase %s)) %s)", mem, term, c.binopIdx("+", fmt.Sprintf("(soff %s)", term), c.idxLit(int64(i)))))
 				}
 			}
 		case *types.Struct, *types.Pointer:
